@@ -395,7 +395,7 @@ fn l2_lines(k: u64) -> Option<Vec<Vec<AbsSeg>>> {
 
 pub fn run(run: &mut Run) -> Finish {
     let tier = run.ctx.tier;
-    let configs: Vec<(usize, usize)> = tier.pick(vec![(3, 3)], vec![(3, 3), (4, 2), (2, 4), (5, 1)]);
+    let configs: Vec<(usize, usize)> = tier.pick(vec![(3, 3)], vec![(3, 3), (4, 2), (2, 4), (5, 1), (3, 4)]);
     for (ci, &(ml, ms)) in configs.iter().enumerate() {
         let n1 = l1_count(ml, ms);
         run.par_slice(&format!("L1 structure: <= {ml} lines x <= {ms} segment slots, each slot in {{empty, 1-field, 4-field, 5-field}}, 3 value patterns (ascending / descending-unsorted / constant-duplicates)"), 10 + ci as u64, n1 * 3, |idx, l| {
